@@ -429,6 +429,8 @@ def apply(s, step, ctx):
             f = LinearForm(lambda v, w: (1.0 + w.x[0]) * v).assemble(b)
             return b, A, M, f
         b, A, M, f = system(m)
+        if step.get('alt'):
+            f = 2.0 * f[::-1].copy() + 1.0          # another system of the same size for the same solver object
         if op == 'bc':
             from skfem import condense, enforce, penalize
             D = b.get_dofs().flatten()
@@ -573,6 +575,12 @@ class PoolMachine(HistoryMachine):
     @rule(mesh=INT, solver=INT, kw=INT)
     def solve(self, mesh, solver, kw):
         self.do(dict(op='solve', mesh=mesh, solver=solver, kw=kw))
+
+    # one solver object, two different systems of equal size one after the other
+    @rule(mesh=INT, solver=INT)
+    def solver_two_systems(self, mesh, solver):
+        self.do(dict(op='solve', mesh=mesh, solver=solver, kw=0))
+        self.do(dict(op='solve', mesh=mesh, solver=solver, kw=0, alt=1))
 
     @rule(mesh=INT, which=INT)
     def boundary_conditions(self, mesh, which):
